@@ -27,8 +27,9 @@ func runC14(c *Ctx) {
 	c14ReturnsStored(c)
 	c14Keywords(c)
 	c14FastPath(c)
-	c14PeekHelpers(c)
+	c14PeekHelpers(c, "C14.peek-helpers")
 	c14TriviaStep(c)
+	c14RangeLookup(c)
 	c14RangeTables(c)
 	c14ClassTables(c)
 	c14Flag(c)
@@ -367,6 +368,13 @@ func c14Keywords(c *Ctx) {
 		})
 	}
 	if !found {
+		// a builder function whose result initialises the map: `for i, text := range tokens[first:last+1] { m[text] = first + i }`
+		if lo, hi, pos, ok := c.keywordBuilderRange(kwG); ok {
+			found = true
+			c.R.Check(rule, "init-range", pos, lo == first && hi == last, fmt.Sprintf("the keyword map is built for kinds [%d,%d] keyed by the token table; the keyword kinds are [%d,%d]", lo, hi, first, last))
+		}
+	}
+	if !found {
 		// the map written as a literal: read its constant contents from the package initialiser
 		literalOK := false
 		why := "no init writes the keyword map"
@@ -564,11 +572,23 @@ func runeSwitchArms(f *ssa.Function, ch ssa.Value) map[rune]*ssa.BasicBlock {
 			return
 		}
 		bo, ok := iff.Cond.(*ssa.BinOp)
-		if !ok || bo.Op != token.EQL || bo.X != ch {
+		if !ok || (bo.Op != token.EQL && bo.Op != token.NEQ) {
 			return
 		}
-		if n, ok := constIntArg(bo.Y); ok {
-			out[rune(n)] = b.Succs[0]
+		k := bo.Y
+		if bo.X != ch {
+			if bo.Y != ch {
+				return
+			}
+			k = bo.X
+		}
+		if n, ok := constIntArg(k); ok {
+			if bo.Op == token.EQL {
+				out[rune(n)] = b.Succs[0]
+			} else if _, dup := out[rune(n)]; !dup {
+				// `if ch != 'x' { ... continue/break }` : the arm for 'x' is what follows
+				out[rune(n)] = b.Succs[1]
+			}
 		}
 	})
 	return out
@@ -905,4 +925,137 @@ func c14Flag(c *Ctx) {
 		})
 	}
 	c.R.Floor(rule, 3)
+}
+
+// keywordBuilderRange recognises a keyword map built by ranging over a sub-slice of the token table:
+//
+//	m := make(map[string]SyntaxKind); for i, text := range tokens[lo:hi] { m[text] = lo + SyntaxKind(i) }
+//
+// with m stored into (or returned into) the package-level keyword map. Returns the kind range [lo, hi-1].
+func (c *Ctx) keywordBuilderRange(kwG *ssa.Global) (lo, hi int64, pos string, ok bool) {
+	if kwG == nil {
+		return
+	}
+	// functions whose result is stored into the keyword global by an initialiser
+	builders := map[*ssa.Function]bool{}
+	for _, f := range c.P.ModFuncs {
+		if !isInitFn(f) {
+			continue
+		}
+		instrs(f, func(b *ssa.BasicBlock, i int, in ssa.Instruction) {
+			st, isSt := in.(*ssa.Store)
+			if !isSt || st.Addr != ssa.Value(kwG) {
+				return
+			}
+			if call, isC := st.Val.(*ssa.Call); isC {
+				if g := calleeOf(call); g != nil && c.inModule(g) {
+					builders[g] = true
+				}
+			}
+		})
+	}
+	for g := range builders {
+		instrs(g, func(b *ssa.BasicBlock, i int, in ssa.Instruction) {
+			mu, isMu := in.(*ssa.MapUpdate)
+			if !isMu || ok {
+				return
+			}
+			mk, isMk := mu.Map.(*ssa.MakeMap)
+			if !isMk {
+				return
+			}
+			// the made map is what the builder returns
+			returned := false
+			for _, ref := range *mk.Referrers() {
+				if ret, isR := ref.(*ssa.Return); isR && len(ret.Results) == 1 && ret.Results[0] == ssa.Value(mk) {
+					returned = true
+				}
+			}
+			if !returned {
+				return
+			}
+			// key = S[I], S = tokens[lo:hi]
+			ku, isU := mu.Key.(*ssa.UnOp)
+			if !isU {
+				return
+			}
+			ia, isIA := ku.X.(*ssa.IndexAddr)
+			if !isIA {
+				return
+			}
+			sl, isSl := ia.X.(*ssa.Slice)
+			if !isSl || sl.Low == nil || sl.High == nil {
+				return
+			}
+			if gl, isG := sl.X.(*ssa.Global); !isG || gl.Name() != "tokens" {
+				return
+			}
+			l, okL := constIntArg(sl.Low)
+			h, okH := constIntArg(sl.High)
+			if !okL || !okH {
+				return
+			}
+			// value = lo + I
+			bo, isB := mu.Value.(*ssa.BinOp)
+			if !isB || bo.Op != token.ADD {
+				return
+			}
+			strip := func(v ssa.Value) ssa.Value {
+				for {
+					if cv, isCv := v.(*ssa.Convert); isCv {
+						v = cv.X
+						continue
+					}
+					if ct, isCt := v.(*ssa.ChangeType); isCt {
+						v = ct.X
+						continue
+					}
+					return v
+				}
+			}
+			var base int64
+			var idx ssa.Value
+			if k, isK := constIntArg(bo.X); isK {
+				base, idx = k, strip(bo.Y)
+			} else if k, isK := constIntArg(bo.Y); isK {
+				base, idx = k, strip(bo.X)
+			} else {
+				return
+			}
+			if idx != ia.Index || base != l {
+				return
+			}
+			// I is the range index: phi(-1, I) + 1, compared with len(S)
+			inc, isInc := idx.(*ssa.BinOp)
+			if !isInc || inc.Op != token.ADD {
+				return
+			}
+			phi, isPhi := inc.X.(*ssa.Phi)
+			one, isOne := constIntArg(inc.Y)
+			if !isPhi || !isOne || one != 1 {
+				return
+			}
+			start := false
+			for _, e := range phi.Edges {
+				if k, isK := constIntArg(e); isK && k == -1 {
+					start = true
+				} else if e != idx {
+					return
+				}
+			}
+			bounded := false
+			for _, ref := range *inc.Referrers() {
+				if cmp, isCmp := ref.(*ssa.BinOp); isCmp && cmp.Op == token.LSS && cmp.X == idx {
+					if call, isC := cmp.Y.(*ssa.Call); isC && isBuiltinCall(call, "len") && call.Call.Args[0] == ssa.Value(sl) {
+						bounded = true
+					}
+				}
+			}
+			if !start || !bounded {
+				return
+			}
+			lo, hi, pos, ok = l, h-1, c.P.InstrPos(in), true
+		})
+	}
+	return
 }
